@@ -125,6 +125,15 @@ def run_cases(exe, cases, tag, batch_size=25, workers=8, timeout=300, env_extra=
     return traces, crashes
 
 
+def scaled(n):
+    """Workload size knob for soak runs: VERIF_SCALE multiplies every tier's case count (default 1; floors are unchanged)."""
+    try:
+        f = float(os.environ.get("VERIF_SCALE", "1"))
+    except ValueError:
+        f = 1.0
+    return max(1, int(n * f))
+
+
 def load_known():
     p = os.path.join(VERIF, "known_findings.json")
     if not os.path.exists(p):
